@@ -80,6 +80,7 @@ fn cfg(algo: Algo, capacity: usize, shards: usize, pipe: bool, predict: bool) ->
         hash_table: vec![],
         pipe,
         predict,
+        no_listener: false,
     }
 }
 
